@@ -821,6 +821,44 @@ func runC08(w *World, r *Report) {
 		})
 	}
 
+	// a storage scan under the ledger lock ends: between two looks at the current item of an iterator the iterator moves
+	r.rule("storage-scan-advances", "in package accountant every path from a call of (*badger.Iterator).Item back to that same call crosses Next / Seek / Rewind of the iterator: a `continue` that skips the advance re-examines one item for ever, with whatever lock the scan holds (truncate scans under the exclusive ledger lock)", 1)
+	nScan := 0
+	for _, fn := range acctFns {
+		instrsOf(fn, func(in ssa.Instruction) {
+			c, ok := in.(ssa.CallInstruction)
+			if !ok || !strings.HasSuffix(calleeName(c), ".Iterator).Item") {
+				return
+			}
+			nScan++
+			again := false
+			first := true
+			walkFrom(in, nil, nil, func(x ssa.Instruction) bool {
+				if first {
+					first = false
+					if x == in {
+						return false
+					}
+				}
+				if x == in {
+					again = true
+					return true
+				}
+				if xc, isCall := x.(ssa.CallInstruction); isCall {
+					n := calleeName(xc)
+					if strings.HasSuffix(n, ".Iterator).Next") || strings.HasSuffix(n, ".Iterator).Seek") || strings.HasSuffix(n, ".Iterator).Rewind") {
+						return true
+					}
+				}
+				return false
+			})
+			r.check(!again, "storage-scan-advances", shortFn(fn)+"/Iterator.Item", lineOf(w, in), "the iterator is advanced before its item is looked at again", "the call is reachable from itself without an advance of the iterator in between: the scan loops on one item")
+		})
+	}
+	if nScan == 0 {
+		r.ok("storage-scan-advances", "none", "-", "no iterator scan in package accountant")
+	}
+
 	// no lock is acquired while it may already be held by the same goroutine
 	r.rule("no-reentrant-lock", "no Lock/RLock on a repo mutex is executed while the same mutex is already held on the calling path (a recursive RLock deadlocks as soon as a writer queues in between; a recursive Lock deadlocks at once)", 10)
 	callSites := map[*ssa.Function][]ssa.CallInstruction{}
